@@ -39,7 +39,7 @@ CORE_KINDS = [
     "if", "for", "forl", "defb", "defa", "block", "ablock", "calltag", "include", "ns", "inh",
 ]
 
-QUICK2_KINDS = ["t2", "em", "c3", "mod", "if", "forl", "defb", "block", "calltag", "include", "inh"]
+QUICK2_KINDS = ["t2", "c3", "mod", "if", "forl", "defb", "block", "calltag", "include", "inh"]
 
 BOUNDS = {
     "quick": {
